@@ -32,9 +32,9 @@ spec fn decodes(data: Seq<u8>, p: int, t: Tok) -> bool {
     }
 }
 // `bytes`: everything written so far
-struct VxW { bytes: Ghost<Seq<u8>> }
+struct VxW { out: Ghost<Seq<u8>> }
 impl VxW {
-    spec fn len(&self) -> int { self.bytes@.len() as int }
+    spec fn len(&self) -> int { self.out@.len() as int }
     // std::io::Write::write_all
     #[verifier::external_body]
     fn write_all(&mut self, buf: &[u8]) -> (r: Result<()>)
@@ -44,13 +44,13 @@ impl VxW {
 // appending keeps every in-bounds token decodable where it was (decoders read only the bytes of their own record)
 spec fn keeps(w0: VxW, w1: VxW) -> bool {
     &&& w0.len() <= w1.len()
-    &&& forall|p: int, t: Tok| 0 <= p && p + tok_size(t) <= w0.len() && #[trigger] decodes(w0.bytes@, p, t) ==> decodes(w1.bytes@, p, t)
+    &&& forall|p: int, t: Tok| 0 <= p && p + tok_size(t) <= w0.len() && #[trigger] decodes(w0.out@, p, t) ==> decodes(w1.out@, p, t)
 }
 // ASSUMED contract of every write stub: one token appended at the end; it decodes there (the codecs round-trip:
 // K-ENTRYCODEC's business), and nothing written before is disturbed
 spec fn appended(w0: VxW, w1: VxW, t: Tok) -> bool {
     &&& w1.len() == w0.len() + tok_size(t)
-    &&& decodes(w1.bytes@, w0.len(), t)
+    &&& decodes(w1.out@, w0.len(), t)
     &&& keeps(w0, w1)
 }
 // utils::serialization_utils writers
@@ -65,6 +65,13 @@ fn write_u32(writer: &mut VxW, v: u32) -> (r: Result<()>)
 #[verifier::external_body]
 fn write_hash(writer: &mut VxW, h: &MerkleHash) -> (r: Result<()>)
     ensures r is Ok ==> appended(*old(writer), *final(writer), Tok::Hash(*h)),
+{ unimplemented!() }
+
+// `for e in vs { write_u64(writer, *e)?; }`
+#[verifier::external_body]
+fn write_u64s(writer: &mut VxW, vs: &[u64]) -> (r: Result<()>)
+    ensures r is Ok ==> final(writer).len() == old(writer).len() + 8 * vs@.len() && keeps(*old(writer), *final(writer))
+        && forall|t: int| 0 <= t < vs@.len() ==> decodes(final(writer).out@, old(writer).len() + 8 * t, Tok::U64(#[trigger] vs@[t])),
 { unimplemented!() }
 
 // the 48-byte record writers (file_structs.rs / cas_structs.rs `serialize`): each builds the record in a stack buffer and
